@@ -471,7 +471,7 @@ void Process::exit(uint32 exitCode)
 #ifdef _WIN32
   ExitProcess(exitCode);
 #else
-  _exit(0);
+  _exit((int)exitCode);
 #endif
 }
 
